@@ -3,6 +3,7 @@ package harness
 import (
 	"encoding/json"
 	"fmt"
+	"regexp"
 	"sort"
 	"strings"
 
@@ -230,12 +231,64 @@ type Metafile struct {
 	Outputs map[string]MetaOutput `json:"outputs"`
 }
 
+// A file that is imported with different import attributes is a separate module per
+// attribute set; the metafile then names it "path with { type: 'json' }". The oracles
+// relate keys to files, so such entries are folded into the file's entry (bytes in an
+// output are summed, imports are united). The raw text is still scanned for duplicate
+// keys, and C09 compares the raw metafile of a rebuild with that of a fresh build.
+var reWithSuffix = regexp.MustCompile(` with \{[^{}]*\}$`)
+
+func baseKey(k string) string { return reWithSuffix.ReplaceAllString(k, "") }
+
 func ParseMetafile(s string) (*Metafile, error) {
 	var m Metafile
 	if err := json.Unmarshal([]byte(s), &m); err != nil {
 		return nil, err
 	}
+	if !strings.Contains(s, " with {") {
+		return &m, nil
+	}
+	fixImports := func(imps []MetaImport) {
+		for i := range imps {
+			imps[i].Path = baseKey(imps[i].Path)
+		}
+	}
+	ins := map[string]MetaInput{}
+	for _, k := range sortedMetaKeys(m.Inputs) {
+		v := m.Inputs[k]
+		fixImports(v.Imports)
+		b := baseKey(k)
+		if old, ok := ins[b]; ok {
+			old.Imports = append(old.Imports, v.Imports...)
+			ins[b] = old
+		} else {
+			ins[b] = v
+		}
+	}
+	m.Inputs = ins
+	for ok, o := range m.Outputs {
+		fixImports(o.Imports)
+		merged := map[string]MetaOutInput{}
+		for k, v := range o.Inputs {
+			b := baseKey(k)
+			x := merged[b]
+			x.BytesInOutput += v.BytesInOutput
+			merged[b] = x
+		}
+		o.Inputs = merged
+		o.EntryPoint = baseKey(o.EntryPoint)
+		m.Outputs[ok] = o
+	}
 	return &m, nil
+}
+
+func sortedMetaKeys(m map[string]MetaInput) []string {
+	ks := make([]string, 0, len(m))
+	for k := range m {
+		ks = append(ks, k)
+	}
+	sort.Strings(ks)
+	return ks
 }
 
 // DuplicateKeys scans the raw JSON text of a metafile for object keys that occur twice
